@@ -40,6 +40,7 @@ def check(ck):
     r09_9(ck)
     r09_10(ck)
     r09_11(ck)
+    r09_12(ck)
 
 
 def _stmt(x):
@@ -577,3 +578,23 @@ def r09_11(ck):
         if v.rule == 'R10.8':
             v.rule = 'R09.11'
     ck.rules.pop('R10.8', None)
+
+
+def r09_12(ck):
+    ck.rule('R09.12', 'every operation of a combined update reaches the '
+            'engine: the lists reported by the handlers are folded by kind '
+            '(none is rebound or dropped) and every registry forgets a '
+            'deleted or moved-away subtree (shared with C10 R10.7 / R10.4)')
+    from . import c10
+    c10.r10_7(ck)
+    c10.r10_4(ck)
+    OLD, NEW = ('R10.7', 'R10.4'), 'R09.12'
+
+    for o in ck.obligations:
+        if o['rule'] in OLD:
+            o['rule'] = NEW
+    for v in ck.violations:
+        if v.rule in OLD:
+            v.rule = NEW
+    for r in OLD:
+        ck.rules.pop(r, None)
